@@ -14,11 +14,15 @@ type kase struct {
 	Seed  uint64 `json:"seed"`
 	Index int    `json:"index"`
 	Tags  string `json:"tags"`
+	Kind  string `json:"kind,omitempty"` // "" standard page, "bidi" page with mixed-direction lines
 	Page  *Page  `json:"page,omitempty"`
 }
 
-func mkCase(c *hx.Ctx, i int, pg Page) kase {
-	k := kase{Seed: c.Seed, Index: i, Tags: strings.Join(pg.Tags, ",")}
+// bidiBase: fork index of the first bidi page (the standard pages keep 0..n-1).
+const bidiBase = 1000000
+
+func mkCase(c *hx.Ctx, i int, kind string, pg Page) kase {
+	k := kase{Seed: c.Seed, Index: i, Kind: kind, Tags: strings.Join(pg.Tags, ",")}
 	if len(pg.F) <= 60 {
 		k.Page = &pg
 	}
@@ -36,12 +40,31 @@ func runPage(c *hx.Ctx, k kase, pg Page) {
 }
 
 func Run(c *hx.Ctx) {
-	c.Rep.Rule = "synthetic pages (integer coordinates over a denominator 1, 2 or 4): 1-4 columns of ragged or justified lines of unique tokens, headings of larger size, lists, single-word lines, short last lines, right-to-left runs, spanning titles, character-level fragmentation, exact and shifted duplicate layers, an outlier word, a zero-width glyph at the right edge, narrow marks in the left margin, a one-character line, boxes higher than the font size, visual / row-major / shuffled stream order, inverted Y, scaled coordinates; each page goes through the layout detectors directly and, rendered to PDF, through the public API in every text mode. Non-trivial = the page has fragments."
+	defer flushChecks(c)
+	c.Rep.Rule = "synthetic pages (integer coordinates over a denominator 1, 2 or 4): 1-4 columns of ragged or justified lines of unique tokens, headings of larger size, lists, single-word lines, short last lines, right-to-left runs, spanning titles, character-level fragmentation, exact and shifted duplicate layers, an outlier word, a zero-width glyph at the right edge, narrow marks in the left margin, a one-character line, boxes higher than the font size, list markers and numbers as direction-neutral fragments, visual / row-major / shuffled stream order, inverted Y, scaled coordinates; each page goes through the layout detectors directly and, rendered to PDF, through the public API in every text mode; plus bidi pages: the same pages whose columns also carry mixed-direction lines of 2-8 fragments (a right-to-left line of Hebrew or Arabic words, or a left-to-right line, with separate direction-neutral fragments - numbers, punctuation marks, currency signs, short compounds like 12:30 or $150 - and embedded words of the other direction in the minority; written in visual left-to-right, logical or random stream order, also character by character). Non-trivial = the page has fragments."
+	// bidi pages first, and among them first the ones small enough to travel in
+	// the replay file: a failure then shows its input
+	m := c.N(60, 600)
+	for pass := 0; pass < 2; pass++ {
+		for i := bidiBase; i < bidiBase+m; i++ {
+			pg := genPageKind(c.Rng.Fork(uint64(i)), kindBidi)
+			if (len(pg.F) <= 60) != (pass == 0) {
+				continue
+			}
+			k := mkCase(c, i, kindBidi, pg)
+			c.Current(k)
+			for _, t := range pg.Tags {
+				c.Count(t)
+			}
+			runPage(c, k, pg)
+			c.Case(fmt.Sprintf("%d/%d", c.Seed, i), len(pg.F) > 0)
+		}
+	}
 	n := c.N(150, 1500)
 	for i := 0; i < n; i++ {
 		r := c.Rng.Fork(uint64(i))
 		pg := genPage(r)
-		k := mkCase(c, i, pg)
+		k := mkCase(c, i, "", pg)
 		c.Current(k)
 		for _, t := range pg.Tags {
 			c.Count(t)
@@ -52,6 +75,7 @@ func Run(c *hx.Ctx) {
 }
 
 func Replay(c *hx.Ctx, m map[string]interface{}) {
+	defer flushChecks(c)
 	var k kase
 	if err := hx.Remarshal(m, &k); err != nil {
 		c.Note("bad case: %v", err)
@@ -62,7 +86,7 @@ func Replay(c *hx.Ctx, m map[string]interface{}) {
 		pg = *k.Page
 	} else {
 		c.Seed = k.Seed
-		pg = genPage(hx.NewRng(k.Seed).Fork(uint64(k.Index)))
+		pg = genPageKind(hx.NewRng(k.Seed).Fork(uint64(k.Index)), k.Kind)
 	}
 	runPage(c, k, pg)
 }
